@@ -138,6 +138,11 @@ def main():
                     rep.harness_error(f"CrossHair counterexample did not reproduce: {c['name']} {c['call']} {out[-300:]}")
                     continue
                 sig = {"condition_kind": c["name"].split("_")[1], "text": text, "family": fam}
+                if sig["condition_kind"] == "reprint" and text is not None:
+                    try:
+                        sig["printed_has_brace"] = "{" in str(L.parse_op(text))
+                    except Exception:  # noqa: BLE001
+                        sig["printed_has_brace"] = False
                 if fam and text is not None:
                     d = L.diagnose_entry(fam, text)
                     sig.update({"outcome": d.get("outcome"), "quoted_has_brace": d.get("quoted_has_brace", False)})
